@@ -106,4 +106,22 @@ META = {
                                 "packet request parsers and their ~40 error-construction sites, ErrorResponseTCP.Bytes, LooksLikeModbusTCP"],
                        "stub": ["net.Listener / net.Conn", "ModbusHandler (reference device + injected handler faults)", "clients", "clock", "goroutine choice"]},
     },
+    "C17": {
+        "level": "exploration",
+        "budget": {"quick": 40, "thorough": 600},
+        "rule": ("each run = the real server.Server.Serve on a simulated listener with one of the 16 set/unset combinations of OnServeFunc/OnErrorFunc/OnAcceptConnFunc/"
+                 "OnCloseConnFunc (stratified x controller action), callbacks and handlers being scheduling points with simulated work; 0-5 client tasks that connect after a "
+                 "delay, send whole or fragmented requests (handler work 0-200 ms, some panicking), idle, close abruptly or hold the connection; OnAccept rejecting every n-th "
+                 "connection; a controller that calls Shutdown (generous or 1-80 ms context) or cancels the serve context at a tape-chosen instant from 0 (while OnServeFunc runs) "
+                 "to 400 ms; every mutex acquisition of the server is a scheduling point. Checked: no panic / process crash; the count told to OnAcceptConnFunc lies between "
+                 "(tracked - closed) and (tracked - untracked) + 1; rejected connections closed; OnCloseConnFunc exactly once per accepted connection by the end of the drained run; "
+                 "after Shutdown returned nil: Serve returned ErrServerClosed without further events, a new dial is refused, every accepted connection is closed by the server, every "
+                 "request whose handler had started has its complete reply written; after cancel: Serve returns within 1 simulated second. non-trivial = at least one client; "
+                 "distinct = distinct schedule fingerprint."),
+        "assumptions": ["a connection that comes out of Accept only after cancellation / after Shutdown began may be turned away (closed, no callbacks)",
+                        "Shutdown returning the context's error (tight context) asserts nothing", "process crashes are detected by the driver and confirmed in isolation",
+                        "data races are looked for in race mode only (free-running goroutines under -race; observation, not replayable byte-exactly)", "sampling, not proof"],
+        "components": {"real": ["server.Server.Serve, trackConn, connection.handle, Shutdown, Addr (server/server.go)", "server.ModbusTCPAssembler"],
+                       "stub": ["net.Listener / net.Conn", "ModbusHandler (reference device with simulated work / panics)", "the four callbacks (recording, parking)", "clients", "clock", "goroutine choice incl. lock hand-off order"]},
+    },
 }
